@@ -151,30 +151,41 @@ Print Assumptions C08_awaited_in_one_set.
 
 (* RELEASE ACCOUNTING, EVERY CALL (Conn/Account.v, a walk through every function of the model with its events).
    For every call other than those that take identifiers into use (acquire, register, restore_packets — they
-   have their own theorems), from every state with the ownership invariant: the identifiers announced by
-   NotifyPacketIdReleased in this call are pairwise distinct, each was in use before the call, and after the
-   call exactly the announced ones have turned free (in use afterwards <=> in use before and not announced) —
-   or every identifier is free: the wholesale reset of a new session (reached only through send_connect,
-   the CONNECT / CONNACK handlers).  Sends, refusals, acknowledgements, close, resume with oversize drops,
-   erase, release_packet_id, timers, every received packet. *)
-Theorem C08_step_accounts : forall g c o, OWNU g c -> takes_ids o = false ->
+   have their own theorems), from every state with the ownership invariant, with the parser's verdict belonging
+   to the frame it was given ([oracle_typed]): the identifiers announced by NotifyPacketIdReleased in this call
+   are pairwise distinct, each was in use before the call, and after the call EXACTLY the announced ones have
+   turned free (in use afterwards <=> in use before and not announced).  The one exception is a call that
+   STARTS A NEW SESSION ([starts_session]: a CONNECT with Clean Start / Clean Session sent or received, a
+   CONNACK received that does not keep the session): there, alternatively, every identifier is free — the
+   wholesale reset.  Sends, refusals, acknowledgements, close, resume with oversize drops, erase,
+   release_packet_id, timers, every received packet. *)
+Theorem C08_step_accounts : forall rs g c o,
+  OWNU g c -> oracle_typed c o -> takes_ids o = false -> (starts_session o = true -> rs = true) ->
   match step g c o with
-  | Ok (c', e, _) => accp g (c_pid c) (c_pid c') (released e)
+  | Ok (c', e, _) => accp rs g (c_pid c) (c_pid c') (released e)
   | Panic _ => True
   end.
 Proof. exact step_accounts. Qed.
 Print Assumptions C08_step_accounts.
 
-Theorem C08_release_accounting : forall g c o c' e r, OWNU g c -> takes_ids o = false -> step g c o = Ok (c', e, r) ->
+Theorem C08_release_accounting : forall g c o c' e r,
+  OWNU g c -> oracle_typed c o -> takes_ids o = false -> starts_session o = false -> step g c o = Ok (c', e, r) ->
   NoDup (released e) /\ (forall id, In id (released e) -> is_used c id = true) /\
-  ((forall id, is_used c' id = is_used c id && negb (inb id (released e))) \/ (forall id, is_used c' id = false)).
+  (forall id, is_used c' id = is_used c id && negb (inb id (released e))).
 Proof. exact step_release_accounting. Qed.
 Print Assumptions C08_release_accounting.
 
-(* C08_partial: on the MODEL side what is left to the monitor alone is the classification of the calls that
-   may reset (a reset happens only when a new session starts) and the no-leak-on-close clause as a statement
-   about ownership ghosts; the implementation is judged by mon_c08 on its traces (with the in-use set from the
-   hook), by the store and allocator stages, and tied to the model by the projection correspondence. *)
+Theorem C08_release_accounting_session_start : forall g c o c' e r,
+  OWNU g c -> oracle_typed c o -> takes_ids o = false -> step g c o = Ok (c', e, r) ->
+  NoDup (released e) /\ (forall id, In id (released e) -> is_used c id = true) /\
+  ((forall id, is_used c' id = is_used c id && negb (inb id (released e))) \/ (forall id, is_used c' id = false)).
+Proof. exact step_release_accounting_any. Qed.
+Print Assumptions C08_release_accounting_session_start.
+
+(* C08_partial: on the MODEL side what is left to the monitor alone is the no-leak-on-close clause as a
+   statement about ownership ghosts (which identifiers the application is responsible for); the implementation
+   is judged by mon_c08 on its traces (with the in-use set from the hook), by the store and allocator stages,
+   and tied to the model by the projection correspondence. *)
 
 Example C08_nonvacuous :
   let g := mkCfg RClient 65535 2 in
